@@ -122,7 +122,9 @@ def gather(chk, tier, vh):
     return out
 
 
-OTHER = "class Other99\n    def m(self) -> Int => 99\n"
+# the companion file of the two-file runs uses no name that the file under test could redefine (a user class named Int replaces the
+# built-in one for the whole project; a diagnostic in the companion would then rightly belong to the companion)
+OTHER = "class Other99\n    def m(self) => print(\"other\")\n"
 
 
 def observe(vh, inputs):
@@ -152,7 +154,9 @@ def observe(vh, inputs):
                 diags.append(d)
             if not diags and run["errs"]:
                 continue        # nothing recognised: counted, not judged
-            obs.append({"id": key, "src": {"path": path, "lines": lines, "lens": [len(l.encode()) for l in lines]}, "diags": diags,
+            olines = OTHER.split("\n")[:-1]
+            others = [{"path": "src/lib/other.mamba", "lines": olines, "lens": [len(l.encode()) for l in olines]}] if mode == "multi" else []
+            obs.append({"id": key, "src": {"path": path, "lines": lines, "lens": [len(l.encode()) for l in lines]}, "others": others, "diags": diags,
                         "fault_line": c["fault_line"], "panic": bool(run.get("panic"))})
     return obs, results, unrecognised
 
